@@ -8,7 +8,7 @@ PID = "C07"
 RULE = ("pools of shapes and closed curves: for each base shape its representations (rotated start vertex, 1-2 inserted "
         "collinear vertices (also at different places with equal segment counts), int/Fraction/float re-encodings, permuted holes/components, split-and-cleaned, copies) and "
         "near misses (one vertex moved by 1e-3, same area elsewhere, reversed orientation, other kind); X == Y, Y == X, "
-        "X != Y on all pairs of a pool, transitivity on triples; mixed-degree curves (circle-vs-polygon results) must "
+        "X != Y on all pairs of a pool, transitivity on triples; the same objects compared again after move / scale of one of them; mixed-degree curves (circle-vs-polygon results) must "
         "return a bool; oracle = exact region equality (slab samples + orientation); non-trivial = both operands are "
         "neither Empty nor Whole; distinct = SHA-1")
 PROOF_STATUS = ("Props/C07.v: kinds, totality (returns a bool) on well-formed polygons of all kinds, never loops, reflexive "
@@ -185,4 +185,25 @@ def check(ctx, case):
             ctx.k_agreed += 1
         else:
             fails.append(Fail(kind="K", what="== differs from model shape_eq", impl=rxy, model=rm))
+    # the same OBJECTS compared again after an in-place transformation of one of them: == follows the
+    # current geometry (exact data, translation / scaling by exact factors)
+    if case["xn"] != "float" and case["yn"] != "float" and x[0] not in "EW" and y[0] not in "EW" and not fails:
+        v = (F(7, 2), F(-3))
+        hist = [("move", lambda S: S.move(v[0], v[1]), lambda p: (p[0] + v[0], p[1] + v[1])),
+                ("scale", lambda S: S.scale(F(3, 2), F(3, 2)), lambda p: (p[0] * F(3, 2), p[1] * F(3, 2)))]
+        name, act, f = hist[len(case["xl"]) % 2]
+        act(X)
+        x2 = U.map_shape(x, f)
+        y2 = U.map_shape(y, f)
+        Y2 = I.mk_shape(y2, case["yn"])
+        r_new = I.outcome(lambda: (X == Y2, Y2 == X))
+        r_old = I.outcome(lambda: X == Y)
+        r_copy = I.outcome(lambda: X == I.mk_shape(x2, case["xn"]))
+        ctx.count("compare-%s-compare" % name)
+        if r_new != ("ok", (truth, truth)):
+            fails.append(Fail(kind="O", what="after %s of an object that had been compared, == with the equally transformed partner is %r (before: %r)" % (name, r_new, truth)))
+        if r_copy != ("ok", True):
+            fails.append(Fail(kind="O", what="after %s of an object that had been compared, it is not == to a fresh object with its coordinates" % name, impl=r_copy))
+        if truth and r_old != ("ok", False) and not _region_equal(x2, y):
+            fails.append(Fail(kind="O", what="after %s the object is still == to its partner at the old place" % name, impl=r_old))
     return fails
